@@ -60,13 +60,12 @@ const (
 	_refStartTag = 0x51
 )
 
-// used to ref object,list,map
-type _refElem struct {
-	// record the kind of target, objects are the same only if the address and kind are the same
-	kind reflect.Kind
-
-	// ref index
-	index int
+// used to ref object,list,map: objects are the same only if address, kind and
+// (for slices, which may share an array) length are the same
+type _refKey struct {
+	addr   unsafe.Pointer
+	kind   reflect.Kind
+	length int
 }
 
 func refTag(tag byte) bool {
@@ -114,20 +113,19 @@ func (e *Encoder) checkEncodeRefMap(v reflect.Value) (int, bool) {
 		return 0, false
 	}
 
-	if elem, ok := e.refMap[addr]; ok {
-		// the array addr is equal to the first elem, which must ignore
-		if elem.kind == kind {
-			// fmt.Printf("-----> find ref: %d, %p, %v, %v\n", elem.index, addr, kind, v)
-			return elem.index, ok
-		}
-		e.refNum++
-		return 0, false
+	key := _refKey{addr: addr, kind: kind}
+	if kind == reflect.Slice {
+		key.length = reflect.Indirect(v).Len()
 	}
 
-	n := e.refNum
+	if index, ok := e.refMap[key]; ok {
+		// fmt.Printf("-----> find ref: %d, %p, %v, %v\n", index, addr, kind, v)
+		return index, ok
+	}
+
+	e.refMap[key] = e.refNum
 	e.refNum++
-	e.refMap[addr] = _refElem{kind, n}
-	// fmt.Printf("---> add ref: %d, %p, %v, %v\n", n, addr, kind, v)
+	// fmt.Printf("---> add ref: %d, %p, %v, %v\n", e.refNum-1, addr, kind, v)
 	return 0, false
 }
 
